@@ -233,3 +233,37 @@ def action_results(ex, act):
 
 def opt_uuid_ptr(ex, present, v):
     return ex.new_ptr(v) if present else None
+
+
+# facts about the real filter language for two concrete filters, so that counterexamples that depend on filtering can be replayed:
+# the uninterpreted parser verdict / match predicate are pinned to the real semantics on this small vocabulary
+REAL_FILTERS = [('attributes:k', lambda has: has), ('NOT attributes:k', lambda has: z3.Not(has))]
+
+
+def filter_axioms(filters, maps):
+    """filters: z3 string terms / python strs; maps: SymMaps"""
+    out = []
+    for f in filters:
+        if f is None:
+            continue
+        fz = zstr(f)
+        for src, sem in REAL_FILTERS:
+            hit = fz == z3.StringVal(src) if is_sym(fz) else None
+            if not is_sym(f):
+                if f != src:
+                    continue
+                hit = True
+            cs = [F_filter_valid()(z3.StringVal(src))]
+            for a in maps:
+                cs.append(F_matches()(z3.StringVal(src), a.has, a.val) == sem(z3.Select(a.has, z3.StringVal('k'))))
+            out.append(z3.Implies(hit, z3.And(*cs)) if hit is not True else z3.And(*cs))
+    return out
+
+
+def filter_vocab_pref(filters):
+    """soft preference for replay models: every filter is absent/empty or one of the real filters above"""
+    out = []
+    for f in filters:
+        if f is not None and is_sym(f):
+            out.append(z3.Or(f == '', *[f == src for src, _ in REAL_FILTERS]))
+    return out
